@@ -792,7 +792,7 @@ def _shard_of(trace, depth, n):
     return h % n
 
 
-def explore(fn, max_paths=100000, on_path=None, deadline=None, shard=None, shard_depth=4):
+def explore(fn, max_paths=100000, on_path=None, deadline=None, shard=None, shard_depth=9):
     """DFS over the decision tree of fn(ctx).  on_path(ctx, ret) is called for every completed path.
     shard=(j, n): only the paths whose first `shard_depth` decisions hash to j are processed (the n shards
     partition the paths; prefixes shorter than shard_depth are re-executed by every shard to find the subtrees)."""
